@@ -361,7 +361,7 @@ Theorem to_app_transparent m cap chunk sc stream outs left :
   concat outs ++ left = stream.
 Proof.
   intros Hcap Hc Happ. unfold to_app.
-  destruct (sniff_then_reads cap stream (sc_tcp sc) (sc_copy sc) Hcap)
+  destruct (sniff_then_reads cap stream (sc_tcp sc) (sc_late sc) (sc_copy sc) Hcap)
     as (b1 & -> & _ & _ & _ & Hreads).
   destruct (breads cap (sc_copy sc) b1) as [[copied e1] b2] eqn:Eb.
   destruct (Hreads _ _ _ eq_refl) as [Hcopied _].
@@ -383,9 +383,8 @@ Theorem to_client_transparent m alloc_max max_read chunk sc ws outs left :
   concat outs ++ left = concat ws.
 Proof.
   intros Hc Hcopy. unfold to_client. destruct m.
-  - destruct (tunnel_reads alloc_max max_read (sc_bufs sc) (filter nonempty ws)) as [copied p'] eqn:Et.
-    intros [= <- <-]. rewrite rechunk_concat. apply tunnel_reads_spec in Et.
-    now rewrite concat_filter_nonempty in Et.
+  - destruct (tunnel_reads alloc_max max_read (sc_bufs sc) ws) as [copied p'] eqn:Et.
+    intros [= <- <-]. rewrite rechunk_concat. now apply tunnel_reads_spec in Et.
   - destruct (side_reads (sc_copy sc) (sc_ws sc) (mkS None (side_writes chunk ws)))
       as [[copied e] s'] eqn:Es.
     intros [= <- <-]. rewrite rechunk_concat.
@@ -436,13 +435,12 @@ Proof.
     destruct (bread cap m b) as [[got e1] b1] eqn:E1.
     destruct (bread_spec cap m b got e1 b1 Hcap Hinv E1) as (Hrem & Hinv1 & _ & He1 & Hprog).
     destruct e1 as [e1|].
-    + intros [= <- <- <-]. destruct He1 as [|(_ & -> & Hr)]; [discriminate|].
-      rewrite Hr in Hrem. cbn [app] in Hrem. exact Hrem.
+    + intros [= <- <- <-]. destruct He1 as [|(_ & Hr)]; [discriminate|]. exact Hr.
     + destruct (breads cap ms b1) as [[l e2] b3] eqn:E2. intros [= <- <- <-].
       eapply IH; [exact Hcap|exact Hinv1|exact Hms'| |exact E2].
       destruct (remaining b) as [|x r] eqn:Er.
       * apply app_eq_nil in Hrem as [_ ->]. cbn. lia.
-      * destruct (Hprog Hm ltac:(discriminate)) as [Hg _].
+      * pose proof (Hprog Hm ltac:(discriminate)) as Hg.
         rewrite <- Hrem, app_length in Hlen. destruct got; [contradiction|].
         cbn [length] in Hlen. lia.
 Qed.
@@ -492,31 +490,44 @@ Proof.
       destruct got; [contradiction|]. cbn [length] in Hlen. lia.
 Qed.
 
+(** Bytes and pending Writes (a zero-length Write is taken by one Read). *)
+Definition pipe_weight (p : pipe) : nat := (length (concat p) + length p)%nat.
+
+Lemma pipe_read_weight m w r :
+  0 < m -> exists got p', pipe_read m (w :: r) = Some (got, p') /\
+                          (pipe_weight p' < pipe_weight (w :: r))%nat.
+Proof.
+  intros Hm. unfold pipe_read, pipe_weight.
+  set (k := N.to_nat (N.min m (lenN w))).
+  destruct (skipn k w) as [|y rest] eqn:Es.
+  - do 2 eexists. split; [reflexivity|]. cbn [concat length]. rewrite app_length. lia.
+  - do 2 eexists. split; [reflexivity|]. cbn [concat length]. rewrite !app_length.
+    assert (Hk : (1 <= k)%nat).
+    { unfold k, lenN. destruct w; [now rewrite skipn_nil in Es|cbn [length]; lia]. }
+    pose proof (skipn_length k w) as L. rewrite Es in L. cbn [length] in L |- *. lia.
+Qed.
+
 Lemma tunnel_reads_drain alloc_max max_read : 0 < max_read -> forall olds p outs p',
-  Forall (fun old => old <> []) olds -> Forall (fun w => w <> []) p ->
-  (length (concat p) <= length olds)%nat ->
+  Forall (fun old => old <> []) olds ->
+  (pipe_weight p <= length olds)%nat ->
   tunnel_reads alloc_max max_read olds p = (outs, p') -> p' = [].
 Proof.
-  intros Hmr. induction olds as [|old olds IH]; intros p outs p' Ho Hp Hlen; cbn [tunnel_reads].
+  intros Hmr. induction olds as [|old olds IH]; intros p outs p' Ho Hlen; cbn [tunnel_reads].
   - intros [= <- <-]. destruct p as [|w r]; [reflexivity|].
-    inversion Hp as [|? ? Hw _]; subst. cbn [concat length] in Hlen.
-    rewrite app_length in Hlen. destruct w; [contradiction|cbn in Hlen; lia].
+    unfold pipe_weight in Hlen. cbn [length] in Hlen. lia.
   - inversion Ho as [|? ? Hold Ho']; subst.
     destruct p as [|w r].
     + unfold tunnel_read. cbn [pipe_read]. now intros [= <- <-].
-    + inversion Hp as [|? ? Hw Hr]; subst.
-      assert (Hsz : 0 < N.min (lenN old) max_read).
+    + assert (Hsz : 0 < N.min (lenN old) max_read).
       { unfold lenN. destruct old; [contradiction|cbn [length]; lia]. }
-      destruct (pipe_read_progress _ w r Hsz Hw) as (got & p1 & E1 & Hg).
+      destruct (pipe_read_weight _ w r Hsz) as (got & p1 & E1 & Hw).
       destruct (tunnel_read alloc_max max_read old (w :: r)) as [res|] eqn:Et.
       2:{ unfold tunnel_read in Et. rewrite E1 in Et.
           destruct (lenN old <? lenN got); discriminate. }
       destruct (tunnel_read_spec _ _ _ _ _ Et) as (data & p1' & -> & Hpr & _).
       rewrite E1 in Hpr. injection Hpr as <- <-.
       destruct (tunnel_reads alloc_max max_read olds p1) as [l p2] eqn:E2. intros [= <- <-].
-      eapply IH; [exact Ho'|exact (pipe_read_nonempty _ (w :: r) got p1 Hp E1)| |exact E2].
-      apply pipe_read_spec in E1 as [Hc _]. rewrite <- Hc, app_length in Hlen.
-      destruct got; [contradiction|]. cbn [length] in Hlen. lia.
+      eapply IH; [exact Ho'| |exact E2]. cbn [length] in Hlen. lia.
 Qed.
 
 Lemma filter_nonempty_all (l : list bytes) : Forall (fun w => w <> []) (filter nonempty l).
@@ -538,7 +549,7 @@ Proof.
   pose proof (to_app_transparent m cap chunk sc stream outs left Hcap Hc Happ E) as Ht.
   assert (Hleft : left = []).
   { unfold to_app in E.
-    destruct (sniff_then_reads cap stream (sc_tcp sc) (sc_copy sc) Hcap)
+    destruct (sniff_then_reads cap stream (sc_tcp sc) (sc_late sc) (sc_copy sc) Hcap)
       as (b1 & Hs & _ & Hinv1 & Hrem1 & Hreads).
     rewrite Hs in E.
     destruct (breads cap (sc_copy sc) b1) as [[copied e1] b2] eqn:Eb.
@@ -567,7 +578,8 @@ Qed.
 Theorem to_client_complete m alloc_max max_read chunk sc ws :
   0 < chunk -> 0 < max_read ->
   Forall (fun x => 0 < x) (sc_copy sc) -> Forall (fun old => old <> []) (sc_bufs sc) ->
-  (length (concat ws) <= length (sc_copy sc))%nat -> (length (concat ws) <= length (sc_bufs sc))%nat ->
+  (length (concat ws) <= length (sc_copy sc))%nat ->
+  (length (concat ws) + length ws <= length (sc_bufs sc))%nat ->
   exists outs, to_client m alloc_max max_read chunk sc ws = (outs, []) /\ concat outs = concat ws.
 Proof.
   intros Hc Hmr Hcopy Hbufs Hl1 Hl2.
@@ -575,11 +587,10 @@ Proof.
   pose proof (to_client_transparent m alloc_max max_read chunk sc ws outs left Hc Hcopy E) as Ht.
   assert (Hleft : left = []).
   { unfold to_client in E. destruct m.
-    - destruct (tunnel_reads alloc_max max_read (sc_bufs sc) (filter nonempty ws)) as [copied p'] eqn:Et.
+    - destruct (tunnel_reads alloc_max max_read (sc_bufs sc) ws) as [copied p'] eqn:Et.
       injection E as <- <-.
-      erewrite (tunnel_reads_drain alloc_max max_read Hmr (sc_bufs sc) (filter nonempty ws) copied p');
-        try eassumption; [reflexivity|apply filter_nonempty_all|].
-      now rewrite concat_filter_nonempty.
+      erewrite (tunnel_reads_drain alloc_max max_read Hmr (sc_bufs sc) ws copied p');
+        try eassumption; reflexivity.
     - destruct (side_reads (sc_copy sc) (sc_ws sc) (mkS None (side_writes chunk ws)))
         as [[copied e] s'] eqn:Es.
       injection E as <- <-.
@@ -674,3 +685,93 @@ Proof. reflexivity. Qed.
 Theorem later_read_blocks_while_open m ks :
   side_read m ks (mkS None []) = ([], SBlock, mkS None [], ks).
 Proof. reflexivity. Qed.
+
+(** * A Write that fails part-way *)
+
+Lemma firstn_plus {A} (a b : nat) (l : list A) :
+  firstn (a + b) l = firstn a l ++ firstn b (skipn a l).
+Proof.
+  revert l; induction a as [|a IH]; intros l; [reflexivity|].
+  destruct l as [|x l]; [now rewrite !firstn_nil|]. cbn [plus firstn skipn app]. now rewrite IH.
+Qed.
+
+Lemma firstn_firstn_le {A} (a b : nat) (l : list A) : (a <= b)%nat -> firstn a (firstn b l) = firstn a l.
+Proof. intros H. rewrite firstn_firstn. now rewrite Nat.min_l. Qed.
+
+(** Whatever fails and wherever: the call returns with n and a non-nil error
+    (never a silent short count), n is the number of bytes of completed
+    messages plus what the failing message accepted, and these bytes are a
+    prefix of the buffer; without a failure it is the plain Write. *)
+Lemma side_write_loop_f_spec chunk buf : 0 < chunk ->
+  forall fuel n frames fa how,
+  n <= lenN buf -> (N.to_nat (lenN buf - n) < fuel)%nat ->
+  concat frames = firstn (N.to_nat n) buf ->
+  match side_write_loop_f fuel chunk buf n frames fa how with
+  | WOkF n' fs => n' = lenN buf /\ concat fs = buf
+  | WErrF n' fs part =>
+      n' <= lenN buf /\ concat fs ++ part = firstn (N.to_nat n') buf /\
+      n' = lenN (concat fs ++ part)
+  | WFuelF => False
+  end.
+Proof.
+  intros Hc. induction fuel as [|f IH]; intros n frames fa how Hn Hf Hfr; [lia|].
+  cbn [side_write_loop_f].
+  destruct (N.ltb_spec n (lenN buf)) as [Hlt|Hge].
+  - set (e := if lenN buf <? n + chunk then lenN buf else n + chunk).
+    assert (He : n < e /\ e <= lenN buf).
+    { unfold e. destruct (N.ltb_spec (lenN buf) (n + chunk)); lia. }
+    set (to_send := firstn (N.to_nat (e - n)) (skipn (N.to_nat n) buf)).
+    assert (Hlen : lenN to_send = e - n).
+    { unfold to_send, lenN. rewrite firstn_length, skipn_length. unfold lenN in *. lia. }
+    assert (Hnext : concat (frames ++ [to_send]) = firstn (N.to_nat (n + lenN to_send)) buf).
+    { rewrite concat_app. cbn [concat]. rewrite app_nil_r, Hfr.
+      replace (N.to_nat (n + lenN to_send)) with (N.to_nat n + N.to_nat (e - n))%nat by lia.
+      rewrite firstn_plus. reflexivity. }
+    assert (Hn_len : n = lenN (concat frames)).
+    { rewrite Hfr. unfold lenN. rewrite firstn_length. unfold lenN in Hn. lia. }
+    destruct fa as [[|k]|].
+    + destruct how as [|w|].
+      * split; [lia|]. rewrite app_nil_r. split; [assumption|assumption].
+      * set (k := N.to_nat (N.min w (lenN to_send))).
+        assert (Hk : (k <= N.to_nat (e - n))%nat) by (unfold k; lia).
+        assert (Hpl : lenN (firstn k to_send) = N.of_nat k).
+        { unfold lenN. rewrite firstn_length. unfold lenN in Hlen. lia. }
+        split; [lia|]. split.
+        -- rewrite Hfr. unfold to_send. rewrite firstn_firstn_le by assumption.
+           assert (Hl2 : lenN (firstn k (skipn (N.to_nat n) buf)) = N.of_nat k).
+           { unfold lenN. rewrite firstn_length, skipn_length. unfold lenN in *. lia. }
+           rewrite Hl2.
+           replace (N.to_nat (n + N.of_nat k)) with (N.to_nat n + k)%nat by lia.
+           now rewrite firstn_plus.
+        -- rewrite lenN_app, <- Hn_len. reflexivity.
+      * split; [lia|]. split.
+        -- rewrite <- Hnext, concat_app. cbn [concat]. now rewrite app_nil_r.
+        -- rewrite lenN_app, <- Hn_len. reflexivity.
+    + apply IH; [lia|lia|exact Hnext].
+    + apply IH; [lia|lia|exact Hnext].
+  - replace n with (lenN buf) in * by lia. split; [reflexivity|].
+    rewrite Hfr. apply firstn_all_lenN. lia.
+Qed.
+
+Theorem side_write_f_spec chunk buf fa how : 0 < chunk ->
+  match side_write_f chunk buf fa how with
+  | WOkF n fs => n = lenN buf /\ concat fs = buf
+  | WErrF n fs part =>
+      n <= lenN buf /\ concat fs ++ part = firstn (N.to_nat n) buf /\ n = lenN (concat fs ++ part)
+  | WFuelF => False
+  end.
+Proof.
+  intros Hc. unfold side_write_f.
+  apply side_write_loop_f_spec; [assumption|lia|unfold lenN; lia|reflexivity].
+Qed.
+
+(** Without a failure it is the plain Write. *)
+Lemma side_write_f_none chunk buf how : 0 < chunk ->
+  side_write_f chunk buf None how =
+  match side_write chunk buf with WDone n fs => WOkF n fs | WFuel => WFuelF end.
+Proof.
+  intros Hc. unfold side_write_f, side_write.
+  generalize (S (length buf)) (@nil bytes) 0. intros fuel.
+  induction fuel as [|f IH]; intros frames n; cbn [side_write_loop_f side_write_loop];
+    destruct (n <? lenN buf); try reflexivity. apply IH.
+Qed.
